@@ -103,8 +103,8 @@ def rotate3d(n: npt.ArrayLike, theta: float) -> npt.NDArray[np.float32]:
         The homogeneous transfomation matrix, shape (4, 4).
     """
 
-    n = np.array(n)
-    nx, ny, nz = n[0:3]
+    n = np.array(n, dtype=np.float64)[0:3]
+    nx, ny, nz = n
     # pylint: disable-next=invalid-name
     N = np.array(
         [
@@ -115,11 +115,13 @@ def rotate3d(n: npt.ArrayLike, theta: float) -> npt.NDArray[np.float32]:
         dtype=np.float32,
     )
 
-    return (
-        np.cos(theta) * np.identity(4)
+    T = np.identity(4, dtype=np.float32)
+    T[:3, :3] = (
+        np.cos(theta) * np.identity(3)
         + (1 - np.cos(theta)) * n * n[:, None]
         + np.sin(theta) * N
     )
+    return T
 
 
 def rotate3d_x(theta: float) -> npt.NDArray[np.float32]:
